@@ -12,6 +12,7 @@ search        : numeric oracles on the real modules of the whole family (orthono
 """
 import math
 import os
+import re
 
 import torch
 
@@ -20,6 +21,7 @@ from common import Ctx, LEAN
 
 LEVEL = "proof"
 BUILD_CHUNK = 3      # certificate modules per lake invocation (each lean process needs up to ~1.5 GB)
+STALE = re.compile(r"_(A|B|P)\.lean$")
 
 
 # ---------------------------------------------------------------------------------------------- numeric oracles
@@ -160,10 +162,9 @@ def cartesian_oracles(ctx, formula, rng_t, tol=1e-9):
 def write_aggregator(info, okn, fname, modname):
     L = ["import E3nnVerif.Props.C10"]
     for n in okn:
-        for part in info[n]["parts"]:
-            L.append(f"import E3nnVerif.Cert.RTP.{n}_{part}")
+        L.append(f"import E3nnVerif.Cert.RTP.{n}_Z")
     L += [f"/- generated by harness/c10.py: the certificates of this run instantiate the hypotheses of Props/C10.lean -/",
-          f"namespace E3nnVerif.Cert.RTP.{modname}", "open E3nnVerif.Props.C10 E3nnVerif.Model.RTP E3nnVerif.Theory", "open scoped BigOperators", ""]
+          f"namespace E3nnVerif.Cert.RTP.{modname}", "open E3nnVerif.Props.C10 E3nnVerif.Model.RTP E3nnVerif.Theory Matrix", "open scoped BigOperators", ""]
     for n in okn:
         g, c = f"E3nnVerif.Generated.RTP.{n}", f"E3nnVerif.Cert.RTP.{n}"
         L.append(f"theorem {n}_certified : Certified {g}.cfg :=\n  ⟨{c}.group_ok, {c}.ortho_ok, {c}.sym_ok, {c}.inter_x_ok, {c}.inter_y_ok, {c}.parity_ok⟩")
@@ -174,6 +175,16 @@ def write_aggregator(info, okn, fname, modname):
                      f"    (E3nnVerif.IR.interp (K := ℝ) env {g}.prog).getD (b * {g}.cfg.D + z.val) 0\n"
                      f"      = ∑ x : Idx {g}.cfg.irIn, Qreal {g}.cfg z x * prodVars env {g}.cfg.irIn (varBases {F.B} b 0 {g}.cfg.irIn) x :=\n"
                      f"  main_eq_contraction {c}.prog_ok env b hb z")
+        L.append(f"theorem {n}_terms : termsCheck {g}.cfg = true := by decide +kernel")
+        L.append(f"theorem {n}_symmetric_iff_formula (t : Idx {g}.cfg.irIn → ℝ) :\n"
+                 f"    IsSym {g}.cfg t ↔ ∀ a ∈ {g}.cfg.terms, ∀ x y : Idx {g}.cfg.irIn,\n"
+                 f"      y.toList = E3nnVerif.ReduceModel.act x.toList a.2 → t x = (a.1 : ℝ) * t y :=\n"
+                 f"  isSym_iff_terms {n}_terms {c}.group_ok t")
+        if info[n]["lmax"] <= 5:
+            L.append(f"theorem {n}_toCartesian_equivariant (α β γ : ℝ) (v : Fin {g}.cfg.D → ℝ) :\n"
+                     f"    toCartesian {g}.cfg (Dout {g}.cfg α β γ *ᵥ v) = Din {g}.cfg α β γ *ᵥ toCartesian {g}.cfg v :=\n"
+                     f"  toCartesian_equivariant {n}_certified (genCert_of_lLe5 (by decide))\n"
+                     f"    (fun s hs => genCert_of_lLe5 (List.all_eq_true.mp (by decide : {g}.cfg.irIn.all lLe5 = true) s hs)) α β γ v")
         L.append(f"theorem {n}_equivariant (k : ℕ) (α β γ : ℝ) :\n"
                  f"    (PoutR {g}.cfg ^ k * Dout {g}.cfg α β γ) * Qreal {g}.cfg\n"
                  f"      = Qreal {g}.cfg * kronProdL (fun s => Pirr s ^ k * Dirr s α β γ) {g}.cfg.irIn :=\n"
@@ -211,6 +222,9 @@ def run(ctx: Ctx):
     torch.manual_seed(ctx.seed * 1009 + 10)
     fam = F.family(ctx.tier, ctx.seed)
     info = F.prepare(ctx, o3, fam)
+    for old in (LEAN / "E3nnVerif" / "Cert" / "RTP").glob("*.lean"):      # files of the first layout of this module
+        if STALE.search(old.name):
+            old.unlink()
     okn = [n for n, v in info.items() if v["lifted"] is not None]
     quick_names = [n for n in okn if info[n]["cfg"].tier == "quick" and not n.startswith("V")]
     seeded = [n for n in okn if n.startswith("V")]
@@ -237,9 +251,9 @@ def run(ctx: Ctx):
             bad = F.failed_certs(outc)
             for (n, p) in chunk:
                 if (n, p) in bad or not bad:
-                    failed[(n, p)] = (F.failed_theorems(n, p, bad.get((n, p), set())) or [t for t, _ in info[n]["parts"][p]], outc[-1500:])
+                    failed[(n, p)] = (F.failed_theorems(n, p, bad.get((n, p), set())) or list(info[n]["parts"][p]), outc[-1500:])
     for (n, p) in cert_targets:
-        for thm, _ in info[n]["parts"][p]:
+        for thm in info[n]["parts"][p]:
             bad_here = (n, p) in failed and thm in failed[(n, p)][0]
             ctx.obligation(f"cert:{n}:{thm}", not bad_here, failed[(n, p)][1] if bad_here else "")
     if ok and not failed:
@@ -248,7 +262,7 @@ def run(ctx: Ctx):
         if okb:
             ctx.audit(["E3nnVerif.Props.C10", "E3nnVerif.Theory.KronRep", "E3nnVerif.Sound.RTPChecks"] + aggs)
     ctx.notes["exact_certified"] = [n for n in okn if not any((n, p) in failed for p in info[n]["parts"])]
-    ctx.notes["main_program_certified"] = [n for n in okn if info[n]["has_prog"] and (n, "P") not in failed]
+    ctx.notes["main_program_certified"] = [n for n in okn if info[n]["has_prog"] and not any((n, p) in failed for p in info[n]["parts"])]
     ctx.notes["numeric_only"] = {n: (v["error"] or (f"{v['unrecognised']} entries not of the form q√d" if v["unrecognised"] else "not in the exact family"))
                                  for n, v in info.items() if v["lifted"] is None}
     ctx.notes["main_not_certified"] = {n: (info[n]["prog_error"] or "excluded (size)") for n in okn if not info[n]["has_prog"]}
